@@ -26,7 +26,7 @@ RULE = (
     "detached at distance >= 2. distinct = by template text; non-trivial = at least 3 planted calls of which one "
     "sits in a multi-line construct or beyond line 5."
 )
-RULE += ' added since: blank lines after an opener, multi-line expressions / filter arguments / signatures (def, block, page, call - including an expression starting on the next line), untagged comments before control lines, magic-comment-only encodings, namespace definitions with attributes on later lines. messages on the continuation lines of backslash-continued control lines. many-attribute <%ns:def> templates extracted in child processes under eight PYTHONHASHSEED values. two-line def signatures on tags that also carry decorator= / filter= / buffered= / cached=.'
+RULE += ' added since: blank lines after an opener, multi-line expressions / filter arguments / signatures (def, block, page, call - including an expression starting on the next line), untagged comments before control lines, magic-comment-only encodings, namespace definitions with attributes on later lines. messages on the continuation lines of backslash-continued control lines. many-attribute <%ns:def> templates extracted in child processes under eight PYTHONHASHSEED values. two-line def signatures on tags that also carry decorator= / filter= / buffered= / cached=. filter lists that start on a later line than the expression (also behind a trailing comment).'
 ASSUMPTIONS = [
     "not asserted: calls inside <%include file=> / filter= attributes of defs, and a gettext call used as the "
     "exception class of a `% except` line (the Lingua plugin blanks try/except/else lines)",
